@@ -11,7 +11,7 @@ From SNT Require Import Base.Outcome Base.Report.
 Import ListNotations.
 Local Open Scope N_scope.
 
-Definition str := list N.
+Notation str := (list N) (only parsing).
 
 Fixpoint s2l (s : string) : str :=
   match s with
@@ -78,7 +78,7 @@ Fixpoint digits_le (fuel : nat) (n : N) : list N :=
 
 (* `{}` of a usize *)
 Definition dec (n : N) : str :=
-  map (fun d => 48 + d) (rev (digits_le (S (N.size_nat n)) n)).
+  map (fun d => 48 + d) (rev (digits_le (S (N.to_nat (N.log2 n))) n)).
 
 Definition parse_dec (s : str) : N := fold_left (fun acc c => acc * 10 + (c - 48)) s 0.
 
@@ -202,44 +202,45 @@ Definition slice_from1 (s : str) : option str :=
 Definition starts_with (c : N) (s : str) : bool :=
   match s with x :: _ => x =? c | [] => false end.
 
+(* keys.rs:264-305  FromStr for KeyName, with f = string.to_lowercase() given.
+   `overflow` is what happens when the digits of an F-key index do not fit a
+   usize: the original code was `.expect("coding error")` (a panic, site 290);
+   the repaired code returns the ParseError. *)
+Definition parse_name_core (overflow : outcome key_name) (f s : str) : outcome key_name :=
+  match lookup_lit named_keys f with
+  | Some k => Ok k
+  | None =>
+      (* the guard  f.starts_with('f') && f.len() > 1 && string[1..].chars().all(..)  *)
+      let* guard :=
+        (if starts_with 102 f && (1 <? utf8_len f) then
+           match slice_from1 s with
+           | None => Panic 288
+           | Some tl => Ok (forallb is_digit tl)
+           end
+         else Ok false) in
+      if guard then
+        match slice_from1 s with
+        | None => Panic 290
+        | Some tl =>
+            match parse_usize tl with
+            | Some n => Ok (KF n)
+            | None => overflow
+            end
+        end
+      else
+        (* cs.chars().count() == 1 *)
+        match f with
+        | [c] => if is_plain c then Ok (KChar c) else Err 1
+        | _ => Err 1
+        end
+  end.
+
 Section Parsers.
   Variable lower : str -> str.      (* str::to_lowercase *)
-
-  (* what the `.parse()` of the F-key index does when the digits do not fit a
-     usize.  The original code was `.expect("coding error")` (a panic, site
-     290); the repaired code returns the ParseError. *)
   Variable fkey_overflow : outcome key_name.
 
-  (* keys.rs:264-305  FromStr for KeyName *)
   Definition parse_name_gen (s : str) : outcome key_name :=
-    let f := lower s in
-    match lookup_lit named_keys f with
-    | Some k => Ok k
-    | None =>
-        (* the guard  f.starts_with('f') && f.len() > 1 && string[1..].chars().all(..)  *)
-        let* guard :=
-          (if starts_with 102 f && (1 <? utf8_len f) then
-             match slice_from1 s with
-             | None => Panic 288
-             | Some tl => Ok (forallb is_digit tl)
-             end
-           else Ok false) in
-        if guard then
-          match slice_from1 s with
-          | None => Panic 290
-          | Some tl =>
-              match parse_usize tl with
-              | Some n => Ok (KF n)
-              | None => fkey_overflow
-              end
-          end
-        else
-          (* cs.chars().count() == 1 *)
-          match f with
-          | [c] => if is_plain c then Ok (KChar c) else Err 1
-          | _ => Err 1
-          end
-    end.
+    parse_name_core fkey_overflow (lower s) s.
 
   (* keys.rs:62-94  FromStr for Key: the loop over string.split('+');
      `None` in the result = the loop ended with key_name = None *)
